@@ -12,6 +12,86 @@ def build(cb):
     return cb.compile("drv_hdr", [os.path.join(common.CDIR, "drv_hdr.c")] + cb.lib_sources())
 
 
+def ccrc_offsets(f, hdr):
+    """offsets (in the header bytes) of the value field of every common-CRC extended header"""
+    lv = f["level"]
+    if lv == 0:
+        return []
+    fs = 4 if lv == 3 else 2
+    off = {1: 2 + hdr[0], 2: 26, 3: 32}[lv]
+    res = []
+    for (t, p) in f.get("exts", []):
+        if t == 0 and len(p) >= 2:
+            res.append(off + 1)
+        off += 1 + len(p) + fs
+    return res
+
+
+def repair_checksum(b):
+    """level 0/1: make the checksum byte fit the (possibly changed) length byte, when the bytes are there"""
+    b = bytearray(b)
+    if len(b) >= 2 + b[0]:
+        b[1] = sum(b[2:2 + b[0]]) & 0xff
+    return bytes(b)
+
+
+def extra_cases(ctx, rnd, bases):
+    """(bytes, kind) beyond single substitutions:
+    ccrc      -- both bytes of the stored common CRC replaced at once (0000, ffff, swapped, one bit) -- a header with a common
+                 CRC that does not match must be rejected whatever the stored value looks like;
+    repaired  -- level 0/1: a length byte, the name-length byte, a compressed-size byte or the level byte changed AND the
+                 checksum byte recomputed, so that the rules behind the checksum (minimum length per level, name inside the
+                 header, extended headers inside the compressed size, level dispatch) are reached;
+    twomember -- a header that breaks a rule, with no data, directly followed by a valid member: the iteration must END there
+                 (no header now, none on the next request either)."""
+    out = []
+    simple = []
+    for lv in (0, 1, 2, 3):
+        for k in range(2 if ctx.quick else 6):
+            f = {"level": lv, "method": rnd.choice([b"-lh0-", b"-lh5-", b"-lhd-"]), "clen": 0, "length": rnd.randrange(1000), "crc": rnd.getrandbits(16),
+                 "attr": 0x20, "os": rnd.choice([0, ord('U'), ord('M'), ord('K')]), "time": 0x21 if lv < 2 else 1000000000 + k}
+            nm = bytes(rnd.choice(b"abcXYZ_") for _ in range(rnd.randrange(1, 9)))
+            if lv in (0, 1):
+                f["name"] = (b"d\\" if f["method"] == b"-lhd-" else b"") + nm
+            if lv > 0:
+                f["exts"] = ([] if lv == 1 and k % 2 else [(1, nm), (2, b"dir\xff")]) + ([(0x54, b"\1\2\3\4")] if k % 2 else []) + [(0, b"\0\0")]
+                rnd.shuffle(f["exts"])
+            if lb.normalise(f) is None:
+                continue
+            hdr, data = hdrgen.member(f)
+            simple.append((f, hdr, data))
+    for (f, hdr, data) in list(bases) + simple:
+        arch = hdr + data + b"\0"
+        for o in ccrc_offsets(f, hdr):
+            c = hdr[o] | (hdr[o + 1] << 8)
+            for v in {0, 0xffff, ((c & 0xff) << 8) | (c >> 8), c ^ 0x8000, c ^ 1, (c + 1) & 0xffff, c & 0xff, c & 0xff00}:
+                if v != c:
+                    out.append((arch[:o] + bytes([v & 0xff, v >> 8]) + arch[o + 2:], "ccrc"))
+        if f["level"] in (0, 1):
+            poss = [0, 21, 20] + ([7, 8] if f["level"] == 1 else [])
+            for pos in poss:
+                vals = range(256) if pos != 20 else range(0, 6)
+                for v in vals:
+                    if v != hdr[pos]:
+                        out.append((repair_checksum(arch[:pos] + bytes([v]) + arch[pos + 1:]), "repaired"))
+    # two members: a broken header without data, then a valid member
+    valid2 = [h + d for (f, h, d) in simple]
+    for (f, hdr, data) in simple:
+        if f["clen"] != 0:
+            continue
+        broken = []
+        if f["level"] in (0, 1):
+            broken.append(hdr[:1] + bytes([hdr[1] ^ 0x10]) + hdr[2:])                # checksum
+        for o in ccrc_offsets(f, hdr):
+            broken.append(hdr[:o] + bytes([hdr[o] ^ 0x40]) + hdr[o + 1:])           # common CRC
+        broken.append(hdr[:20] + bytes([4 + rnd.randrange(250)]) + hdr[21:])         # level above 3
+        if f["level"] >= 2 and not ccrc_offsets(f, hdr):
+            pass
+        for b in broken:
+            out.append((b + rnd.choice(valid2) + b"\0", "twomember"))
+    return out
+
+
 def run(ctx):
     rnd = random.Random(ctx.seed * 9576890767 + 12)
     cb = CBuild(PID)
@@ -96,7 +176,8 @@ def run(ctx):
             for cut in (len(hdr) - 1, 65536, 65535, k, len(hdr) // 2):
                 cases.append((arch[:cut], "big-trunc"))
         dist["big_headers"] = nbig
-        lines = ["hdr %s %s" % (rnd.choice(["file", "cbskip", "cbnoskip", "pipe"]) if k != "subst" else "cbskip",
+        cases += extra_cases(ctx, random.Random(ctx.seed * 7907 + 1212), bases)
+        lines = ["hdr %s %s" % (rnd.choice(["file", "cbskip", "cbnoskip", "pipe"]) if k not in ("subst", "repaired", "ccrc") else "cbskip",
                                 a.hex() if a else "-") for a, k in cases]
         co = common.run_lines_parallel([cexe], lines)
         mo = common.run_lines_parallel([ctx.model], lines)
@@ -114,6 +195,10 @@ def run(ctx):
                     viol.append({"property": PID, "kind": "non-intact-header-returned", "case": ln, "mutation": k,
                                  "observed": c[:600], "sig": "returned:" + k})
                     continue
+                if " again=1" in c:
+                    viol.append({"property": PID, "kind": "iteration-continues-after-broken-header", "case": ln, "mutation": k,
+                                 "observed": c[:600], "sig": "again:" + k})
+                    continue
             if c != m:
                 mism.append({"case": ln[:3000], "c": c[:600], "model": m[:600]})
         cov = {"evaluations": len(cases), "distinct_nontrivial": nontriv,
@@ -121,7 +206,9 @@ def run(ctx):
                        "byte position (exhaustive), every truncation, +-1/+-2/+-256/+65536 on each length field; headers longer than 64 KiB (level 3 and level 1, common CRC, CRC state "
                        "after len mod 2^16 bytes = final state) with substitutions before and after that point and truncations; a case is "
                        "non-trivial when the independent predicate says the mutated header is NOT intact (then the library must "
-                       "not return it)" % len(bases),
+                       "not return it); plus (extra_cases) both bytes of the stored common CRC replaced (0000, ffff, swapped, one bit), level-0/1 "
+                       "length / name-length / size / level bytes changed with the checksum REPAIRED (all 255 values), and broken headers "
+                       "directly followed by a valid member (no header may be returned then or on the next request)" % len(bases),
                "exhaustive": True, "distribution": dict(dist), "samples": [lines[0][:200], lines[1][:200], lines[-1][:200]]}
         return {"violations": viol[:10], "mismatches": mism[:10], "coverage": cov,
                 "search_note": "direct oracle: independent intact() vs whether the C returned a header"}
@@ -136,7 +223,7 @@ def replay(payload):
         out = common.run_lines_parallel([cexe], [payload["case"]])
         a = common.unhex(payload["case"].split()[2])
         print("observed:", out[0][:600], "intact:", lb.intact(a))
-        bad = out[0].startswith("H ") and not lb.intact(a)
+        bad = (out[0].startswith("H ") or " again=1" in out[0]) and not lb.intact(a)
         print("REPRODUCED" if bad else "not reproduced")
         return 1 if bad else 0
     finally:
